@@ -167,3 +167,30 @@ func (w *Wire) Do(method, target string, hdr http.Header, body []byte) (*Exchang
 	ex, _, err := w.serve(buf.Bytes())
 	return ex, err
 }
+
+// DoChunked sends the body with Transfer-Encoding: chunked (the server sees ContentLength == -1), split into
+// two chunks when it has more than one byte.
+func (w *Wire) DoChunked(method, target string, hdr http.Header, body []byte) (*Exchange, error) {
+	var buf bytes.Buffer
+	fmt.Fprintf(&buf, "%s %s HTTP/1.1\r\nHost: verif.test\r\n", method, target)
+	for k, vs := range hdr {
+		for _, v := range vs {
+			fmt.Fprintf(&buf, "%s: %s\r\n", k, v)
+		}
+	}
+	buf.WriteString("Transfer-Encoding: chunked\r\n\r\n")
+	parts := [][]byte{body}
+	if len(body) > 1 {
+		parts = [][]byte{body[:len(body)/2], body[len(body)/2:]}
+	}
+	for _, p := range parts {
+		if len(p) > 0 {
+			fmt.Fprintf(&buf, "%x\r\n", len(p))
+			buf.Write(p)
+			buf.WriteString("\r\n")
+		}
+	}
+	buf.WriteString("0\r\n\r\n")
+	ex, _, err := w.serve(buf.Bytes())
+	return ex, err
+}
